@@ -372,6 +372,21 @@ def check_mapping(ctx, rnd):
                             if got != f:
                                 bad("mapping-fold", "unmirrored mapping differs from the left fold")
                                 return
+        # nested slices and the 4-argument constructor use absolute indices
+        for _ in range(6):
+            a = rnd.randint(0, n)
+            b = rnd.randint(a, n)
+            c = rnd.randint(0, n)
+            e = rnd.randint(c, n)
+            for sl, nm in ((mp.slice(a, b).slice(c, e), "slice(%d,%d).slice(%d,%d)" % (a, b, c, e)),
+                           (Mapping(list(maps), list(mirror) if mirror else None, c, e), "Mapping(maps,mirror,%d,%d)" % (c, e)),
+                           (mp.slice(a, b).slice(c), "slice(%d,%d).slice(%d)" % (a, b, c))):
+                hi = e if "slice(%d)" % c not in nm else n
+                for pos in range(0, top, 2):
+                    ep, _d, _a = ref_mapping_map(T, P, c, hi, pos, 1)
+                    if sl.map(pos, 1) != ep:
+                        bad("mapping-nested-slice", "%s.map(%d,1) = %r, reference over maps[%d:%d] gives %d" % (nm, pos, sl.map(pos, 1), c, hi, ep))
+                        break
         if mp_ctor.map(3, 1) != mp.map(3, 1) or mp_ctor.map(1, -1) != mp.map(1, -1):
             bad("mapping-ctor", "Mapping(maps, mirror) and append_map disagree")
         ctx.cover(["B", n, bool(mirror), len(P)], nontrivial=True)
